@@ -9,7 +9,7 @@ import (
 
 // ---------- errors that end a path ----------
 
-type engineErr struct{ msg string }   // unsupported / internal: inconclusive
+type engineErr struct{ msg string }    // unsupported / internal: inconclusive
 type pathAbort struct{ reason string } // infeasible or assume(false): silent
 
 type goPanic struct {
